@@ -15,6 +15,7 @@ import Upnp.Lemmas.C14Call
 import Upnp.Lemmas.C14Desc
 import Upnp.Lemmas.C14Svc
 import Upnp.Lemmas.C14Dev
+import Upnp.Lemmas.C14Schema
 import Upnp.Lemmas.C14Bridge
 import Upnp.Lemmas.C14DevBridge
 import Upnp.Props.C05
@@ -117,11 +118,14 @@ theorem handler_error_default (fs : Facts) (stype : Str) (acts : List SAct) (h :
     action object `cactOf fs sact` — the one `client_sees_definition` shows the factory builds from
     the served SCPD (same argument names, bound to the client's parse `clientVarOf` of each variable).
     For every service type and action name free of `#` and `"`, distinct in-argument names, every
-    argument assignment `args` that supplies each in-argument with a value which passes the client's
-    schema (`ArgsOk … (cactOf fs sact).ins`, so the client sends it) and the server's (`ArgsOk …
-    sact.ins`) and survives the codec (`pyInt_decOfInt` for the integer types, trivial for strings
+    argument assignment `args` that is **valid for the definition** — each in-argument gets a value
+    which passes the schema of the definition's variable (`ArgsOk … sact.ins`); that the client's
+    re-parsed variables then accept it too, so the client sends it, is *derived* (`argsOk_cactOf` from
+    `schemaOk_clientVarOf`, for well-formed variables `VarAgreeWF`: `VarWF` plus non-empty bound texts) —
+    and survives the codec (`pyInt_decOfInt` for the integer types, trivial for strings
     and booleans, recorded facts for float / date / time), and every handler result `vals` of
-    out-arguments with valid values (`ValsOk`):
+    out-arguments with valid values (`ValsOk`), returned as plain values or — the library's own idiom —
+    as the `UpnpStateVariable` objects holding them (`.retVars`):
     * the request written by the client's `create_request` is accepted by `_parse_action_body`,
       passes `validate_arguments`, and the handler is called with a dictionary holding exactly the
       caller's value for each in-argument and nothing else;
@@ -132,14 +136,16 @@ theorem call_roundtrip (fs : Facts) (stype : Str) (sacts : List SAct) (sact : SA
     (h1 : '#' ∉ stype) (h2 : '"' ∉ stype) (h3 : '#' ∉ sact.name) (h4 : '"' ∉ sact.name)
     (hfind : sacts.find? (fun a => a.name = sact.name) = some sact)
     (hnd : (sact.ins.map (·.name)).Nodup)
-    (hokC : ArgsOk fs args (cactOf fs sact).ins) (hokS : ArgsOk fs args sact.ins)
-    (hh : h sact.name (kwOf args sact) = .ret vals) (hv : ValsOk fs sact vals) :
+    (hw : ∀ a ∈ sact.ins, VarAgreeWF fs a.var) (hokS : ArgsOk fs args sact.ins)
+    (hh : h sact.name (kwOf args sact) = .ret vals ∨ ∃ asVar, h sact.name (kwOf args sact) = .retVars vals asVar)
+    (hv : ValsOk fs sact vals) :
     createRequest fs stype (cactOf fs sact) args = .ok (reqOf stype sact args)
     ∧ handlerInput fs sacts (reqOf stype sact args) = some (sact.name, kwOf args sact)
     ∧ (∀ a ∈ sact.ins, get? (kwOf args sact) a.name = get? args a.name)
     ∧ (∀ k, k ∉ sact.ins.map (·.name) → get? (kwOf args sact) k = none)
     ∧ clientCall fs stype (cactOf fs sact) (serverHandle fs stype sacts h) args = .ok (PyDict.ofList vals) := by
   obtain ⟨_, hp, hi⟩ := request_reaches_handler (acts := sacts) h1 h2 h3 h4 hfind hnd hokS
+  have hokC : ArgsOk fs args (cactOf fs sact).ins := argsOk_cactOf hw hokS
   have hc := createRequest_cactOf (stype := stype) hokC
   refine ⟨hc, hi, ?_, ?_, ?_⟩
   · intro a ha
@@ -156,7 +162,11 @@ theorem call_roundtrip (fs : Facts) (stype : Str) (sacts : List SAct) (sact : SA
     unfold clientCall
     rw [hc]
     simp only
-    rw [hs, hh]
+    have hr : renderResult fs stype sact (h sact.name (kwOf args sact)) = renderResult fs stype sact (.ret vals) := by
+      rcases hh with hh | ⟨asVar, hh⟩
+      · rw [hh]
+      · rw [hh]; exact renderResult_retVars hv asVar
+    rw [hs, hr]
     simp only [renderResult, responseKids_ok hv]
     rw [clientDecode_cactOf]
     exact response_reaches_caller hv
